@@ -274,6 +274,10 @@ def search_witness(repo, c: api.Contract, seed, n=400):
     builtins), look for a concrete failing input by running the real function on generated inputs. Bounded search,
     used only to FIND an input, never to claim anything when it finds none."""
     import inspect
+    if c.assumed or c.opts.get("no_selftest"):
+        # the contract opts out of native runs on GENERATED inputs (process-level effects, file-system / whole-project
+        # linting): nothing is searched -- its own witness_*() inputs are still replayed by the caller
+        return None
     rng = random.Random(seed)
     strs, ints = harvest_constants(repo, c)
     g = Gen(rng, strs, ints, kinds=harvest_node_kinds(repo, c))
